@@ -340,25 +340,41 @@ def q_rules(P, E):
 
 
 def _check_predicate_polarity(P, r, pb):
-    """On the aborted edge the predicate must return false (= stop waiting)."""
-    for i in sorted(pb.reach):
-        t = pb.blocks[i]["term"]
-        if t["k"] == "switch" and t["discr"]["k"] in ("copy", "move") and _touches(P, pb, t["discr"], "abort"):
-            aborted = t["otherwise"]
-            # all `_0 = const X` reachable from the aborted edge before return, not via the other edge
-            zero = [x for v, x in t["targets"] if v == 0]
-            seen = pb.reachable_from([aborted], avoid=zero)
-            vals = set()
-            for bb in seen:
-                for s in pb.blocks[bb]["stmts"]:
-                    if s["k"] == "assign" and s["lhs"] == [0] and s["rv"]["k"] == "use" and s["rv"]["op"]["k"] == "const":
-                        vals.add(s["rv"]["op"].get("s"))
-                tt = pb.blocks[bb]["term"]
-                if tt["k"] == "call" and tt["dest"] == [0]:
-                    vals.add("call")
-            r.instance(("Q3", pb.nid, "polarity"), True, "aborted edge returns %s" % sorted(vals))
-            if vals != {"false"}:
-                r.violate(("Q3", pb.nid, "predicate keeps waiting when aborted"),
-                          "on the aborted edge the wait predicate returns %s instead of false: the worker never leaves the wait" % sorted(vals), body=pb)
-            return
-    r.error("Q3: abort branch not found in the wait predicate")
+    """With the abort flag set the predicate must return false (= stop waiting) on every path,
+    whatever the queue holds.  Decided by interpreting the predicate's MIR over the abort bit."""
+    from absint import SlotInterp, Unsupported
+    # the abort cell as seen from the predicate closure: upvar 0 (self) . data . abort
+    cellpaths = set()
+    acqs, _, _ = pb.guards()
+    for bb, a in acqs.items():
+        for (rk, rd, path) in a["cell"]:
+            if "abort" in path and rk == "upvar":
+                cellpaths.add((rk, rd, path))
+    if not cellpaths:
+        r.error("Q3: abort read not found in the wait predicate")
+        return
+    (rk, rd, path) = sorted(cellpaths)[0]
+    # bind: treat the closure environment as the tracked object; upvar k is addressed as param "u<k>"
+    class _B(dict):
+        pass
+    interp = SlotInterp(P, (tuple(path),), bool_cells=(0,))
+    orig = interp.obj_paths
+
+    def obj_paths(body, prov, binding):
+        out = orig(body, prov, binding)
+        for (k, d, pth) in prov:
+            if k == "upvar" and d == rd and body.id == pb.id:
+                out.append(tuple(pth))
+        return out
+    interp.obj_paths = obj_paths
+    try:
+        outs = interp.run(pb, (True,), {})
+    except Unsupported as e:
+        r.error("Q3: cannot interpret the wait predicate: %s" % e)
+        return
+    rets = sorted({o.ret for o in outs}, key=str)
+    r.instance(("Q3", pb.nid, "polarity"), True, "with abort set the predicate returns %s" % rets)
+    if any(x != 0 for x in rets):
+        r.violate(("Q3", pb.nid, "predicate keeps waiting when aborted"),
+                  "with the abort flag set the wait predicate can return %s (must be false on every path): the worker never "
+                  "leaves the wait" % [x for x in rets if x != 0], body=pb)
